@@ -15,6 +15,8 @@ impl Error {
     /// `From<io::Error> for Error` (what `?` applies at the sink sites)
     #[verifier::external_body]
     pub fn from(e: VxIoError) -> Error { unimplemented!() }
+    #[verifier::external_body]
+    pub fn message<T>(m: T) -> Error { unimplemented!() }
 }
 #[verifier::external_body]
 pub fn vx_rendering_error() -> Error { unimplemented!() }
